@@ -36,7 +36,7 @@ def run_gose(h, tier, outdir):
     cmd = [GOSE, "-repo", REPO, "-harness", os.path.join(VERIF, "harness", "tree"), "-pkgs", ",".join(h["pkgs"]),
            "-entry", MOD + h["entry"], "-out", out]
     if h.get("redirects"):
-        cmd += ["-redirects", os.path.join(VERIF, h["redirects"])]
+        cmd += ["-redirects", ",".join(os.path.join(VERIF, f) for f in h["redirects"].split(","))]
     budget = h.get("budget", {}).get(tier)
     if budget:
         cmd += ["-budget", budget]
